@@ -176,3 +176,122 @@ Proof.
   exact (init_loop fields args [] fields [] eq_refl).
 Qed.
 End P.
+
+(* ---- construction = default construction + assignment (for distinct field names) ---- *)
+Section C.
+Variable V : Type.
+
+Lemma lookup_set_attr (l : list (string * V)) nm v k :
+  lookup k (set_attr V l nm v) = if String.eqb k nm then Some v else lookup k l.
+Proof.
+  induction l as [|[k' w] r IH]; cbn [set_attr lookup].
+  - destruct (String.eqb k nm); reflexivity.
+  - destruct (String.eqb_spec nm k') as [E|E]; cbn [lookup].
+    + subst k'. destruct (String.eqb k nm); reflexivity.
+    + rewrite IH. destruct (String.eqb_spec k k') as [E2|E2]; [|reflexivity].
+      subst k'. destruct (String.eqb_spec k nm) as [E3|E3]; [congruence|reflexivity].
+Qed.
+
+(* what the construction loop / a sequence of assignments leaves under the name k: the LAST store to k wins *)
+Fixpoint last_init (args : list (option V)) (s : nat) (rest : list (string * V)) (k : string) : option V :=
+  match rest with
+  | [] => None
+  | (nm, d) :: r => match last_init args (S s) r k with
+                    | Some v => Some v
+                    | None => if String.eqb k nm then Some (match nth s args None with Some v => v | None => d end) else None
+                    end
+  end.
+Fixpoint last_assign (args : list (option V)) (s : nat) (rest : list (string * V)) (k : string) : option V :=
+  match rest with
+  | [] => None
+  | (nm, d) :: r => match last_assign args (S s) r k with
+                    | Some v => Some v
+                    | None => if String.eqb k nm then nth s args None else None
+                    end
+  end.
+
+Definition step_init (args : list (option V)) (at_ : list (string * V)) (x : nat * (string * V)) : list (string * V) :=
+  let '(i, (nm, d)) := x in set_attr V at_ nm (match nth i args None with Some v => v | None => d end).
+(* assigning, on an existing instance, the fields an argument was given for *)
+Definition step_assign (args : list (option V)) (at_ : list (string * V)) (x : nat * (string * V)) : list (string * V) :=
+  let '(i, (nm, d)) := x in match nth i args None with Some v => set_attr V at_ nm v | None => at_ end.
+
+Lemma init_spec_is_fold fields args : init_spec V fields args = fold_left (step_init args) (combine (seq 0 (length fields)) fields) [].
+Proof. unfold init_spec. f_equal. Qed.
+
+Lemma lookup_fold_init args k : forall rest s acc,
+  lookup k (fold_left (step_init args) (combine (seq s (length rest)) rest) acc)
+  = match last_init args s rest k with Some v => Some v | None => lookup k acc end.
+Proof.
+  induction rest as [|[nm d] r IH]; intros s acc; [reflexivity|].
+  cbn [length seq combine fold_left last_init]. rewrite IH. destruct (last_init args (S s) r k); [reflexivity|].
+  unfold step_init. rewrite lookup_set_attr. destruct (String.eqb k nm); reflexivity.
+Qed.
+
+Lemma lookup_fold_assign args k : forall rest s acc,
+  lookup k (fold_left (step_assign args) (combine (seq s (length rest)) rest) acc)
+  = match last_assign args s rest k with Some v => Some v | None => lookup k acc end.
+Proof.
+  induction rest as [|[nm d] r IH]; intros s acc; [reflexivity|].
+  cbn [length seq combine fold_left last_assign]. rewrite IH. destruct (last_assign args (S s) r k); [reflexivity|].
+  unfold step_assign. destruct (nth s args None) as [v|].
+  - rewrite lookup_set_attr. destruct (String.eqb k nm); reflexivity.
+  - destruct (String.eqb k nm); reflexivity.
+Qed.
+
+Lemma last_init_absent args k : forall rest s, ~ In k (map fst rest) -> last_init args s rest k = None.
+Proof.
+  induction rest as [|[nm d] r IH]; intros s H; [reflexivity|]. cbn [last_init]. cbn in H.
+  rewrite IH by tauto. destruct (String.eqb_spec k nm); [subst; tauto | reflexivity].
+Qed.
+Lemma last_assign_absent args k : forall rest s, ~ In k (map fst rest) -> last_assign args s rest k = None.
+Proof.
+  induction rest as [|[nm d] r IH]; intros s H; [reflexivity|]. cbn [last_assign]. cbn in H.
+  rewrite IH by tauto. destruct (String.eqb_spec k nm); [subst; tauto | reflexivity].
+Qed.
+
+Lemma nth_nil_none (s : nat) : nth s (@nil (option V)) None = None.
+Proof. destruct s; reflexivity. Qed.
+
+Lemma init_is_assign_over_default args k : forall rest s, NoDup (map fst rest) ->
+  last_init args s rest k = match last_assign args s rest k with Some v => Some v | None => last_init [] s rest k end.
+Proof.
+  induction rest as [|[nm d] r IH]; intros s ND; [reflexivity|]. cbn [map fst] in ND. inversion ND as [|? ? Hnot ND']; subst.
+  cbn [last_init last_assign]. destruct (String.eqb_spec k nm) as [E|E].
+  - subst k. rewrite !last_init_absent, last_assign_absent by assumption. rewrite nth_nil_none.
+    destruct (nth s args None); reflexivity.
+  - rewrite (IH (S s) ND'). destruct (last_assign args (S s) r k); [reflexivity|].
+    destruct (last_init [] (S s) r k); reflexivity.
+Qed.
+
+(* every field of a constructed instance is the argument given for it, or the type's default *)
+Theorem constructed_field_is_argument_or_default fields args : NoDup (map fst fields) ->
+  forall i nm d, nth_error fields i = Some (nm, d) ->
+  lookup nm (init_spec V fields args) = Some (match nth i args None with Some v => v | None => d end).
+Proof.
+  intros ND i nm d H. rewrite init_spec_is_fold, lookup_fold_init. cbn [lookup].
+  assert (G : forall rest s, NoDup (map fst rest) -> forall i, nth_error rest i = Some (nm, d) ->
+            last_init args s rest nm = Some (match nth (s + i) args None with Some v => v | None => d end)).
+  { induction rest as [|[n0 d0] r IH]; intros s ND0 [|j] Hj; cbn in Hj; try discriminate.
+    - injection Hj as -> ->. cbn [last_init]. inversion ND0; subst. rewrite last_init_absent by assumption.
+      rewrite String.eqb_refl, Nat.add_0_r. reflexivity.
+    - cbn [last_init]. inversion ND0; subst. rewrite (IH (S s) ltac:(assumption) j Hj). replace (S s + j) with (s + S j) by lia. reflexivity. }
+  rewrite (G fields 0 ND i H). reflexivity.
+Qed.
+
+(* constructing from arguments = default construction followed by assigning the fields an argument was given for *)
+Theorem construction_is_default_then_assignment fields args : NoDup (map fst fields) -> forall k,
+  lookup k (init_spec V fields args)
+  = lookup k (fold_left (step_assign args) (combine (seq 0 (length fields)) fields) (init_spec V fields [])).
+Proof.
+  intros ND k. rewrite lookup_fold_assign, !init_spec_is_fold, !lookup_fold_init. cbn [lookup].
+  rewrite (init_is_assign_over_default args k fields 0 ND).
+  destruct (last_assign args 0 fields k); [reflexivity|]. destruct (last_init [] 0 fields k); reflexivity.
+Qed.
+
+(* without distinct names the clause is false of the model: the later default overwrites the earlier argument *)
+End C.
+Example repeated_names_break_it :
+  lookup "x" (init_spec Z [("x", 0%Z); ("x", 0%Z)] [Some 7%Z; None]) = Some 0%Z /\
+  lookup "x" (fold_left (step_assign Z [Some 7%Z; None]) (combine (seq 0 2) [("x", 0%Z); ("x", 0%Z)]) (init_spec Z [("x", 0%Z); ("x", 0%Z)] [])) = Some 7%Z.
+Proof. vm_compute. split; reflexivity. Qed.
